@@ -1,0 +1,18 @@
+//go:build verif
+
+// Ghost lemma functions read by /verif/govc. Never called; excluded from every build without the tag `verif`.
+
+package leanhelix
+
+import (
+	"github.com/orbs-network/lean-helix-go/services/interfaces"
+	"github.com/orbs-network/lean-helix-go/services/leanhelixterm"
+	"github.com/orbs-network/lean-helix-go/services/rawmessagesfilter"
+)
+
+// The height filter calls the installed term through the interface rawmessagesfilter.ConsensusMessagesHandler; the
+// term's own HandleConsensusMessage has its own precondition. This function makes the step between the two contracts an
+// obligation: under the interface contract's preconditions the implementation's preconditions hold (checked at the call).
+func lemmaTheFilterDeliversWhatTheTermRequires(f *rawmessagesfilter.RawMessageFilter, t *leanhelixterm.LeanHelixTerm, message interfaces.ConsensusMessage) {
+	_ = t.HandleConsensusMessage(message)
+}
